@@ -2,6 +2,7 @@ package main
 
 import (
 	"fmt"
+	"golang.org/x/tools/go/ssa"
 	"sort"
 	"strings"
 )
@@ -85,6 +86,8 @@ func checkC10(c *Ctx) {
 	c.Rule("C10-R3", "no method returns with the mutex held, none acquires it twice")
 	c.Rule("C10-R5", "what GetContent hands out is never written again: combining runes are stored as a fresh copy and no function writes through a stored slice (readers hold the slice outside the lock)")
 	c.Expect("C10-R5", 2)
+	c.Rule("C10-R7", "the resize callback of the unix Tty implementations is shared with their signal goroutine: every load and store of the field lies between Lock and Unlock of the Tty's own mutex (the screen calls NotifyResize without holding the screen lock)")
+	c.Expect("C10-R7", 4)
 	c.Rule("C10-R6", "concurrent Fini calls are safe: the shutdown body runs through sync.Once only and the quit channel has a single closer (a flag read under the lock and acted upon after releasing it lets two callers close the channel)")
 	c.Expect("C10-R6", 3)
 	c.Rule("C10-R4", "memory handed from the input goroutine to the main loop over a channel is not written again by the sender (a fresh array per chunk): the lock does not cover it")
@@ -97,6 +100,13 @@ func checkC10(c *Ctx) {
 	runLockDomain(c, "linux", "tScreen", "C10", 60)
 	runLockDomain(c, "linux", "simscreen", "C10", 40)
 	runLockDomain(c, "linux", "baseScreen", "C10", 10)
+	// the Tty implementations have a mutex of their own (the resize callback is read by the signal
+	// goroutine and written by NotifyResize, which the screen calls without holding its own lock)
+	if p := c.P("linux"); p != nil && p.Tcell != nil {
+		for _, t := range []string{"devTty", "stdIoTty"} {
+			checkTtyCallbackLocked(c, p, t, "C10-R7")
+		}
+	}
 	if p := c.P("linux"); p != nil && p.Tcell != nil {
 		checkChunkOwnership(c, p, "C10-R4")
 		c.asRule("C08-R4", "C10-R5", func() { c08Alias(c, p, cbMethods(p)) })
@@ -109,4 +119,112 @@ func checkC10(c *Ctx) {
 			runLockDomain(c, cfg, "tScreen", "C10", 60)
 		}
 	}
+}
+
+// checkTtyCallbackLocked: in Tty implementation tname every access to the callback field is dominated
+// by a Lock of the Tty's mutex field with no Unlock of it in between on any path.
+func checkTtyCallbackLocked(c *Ctx, p *Prog, tname, rule string) {
+	if p.namedType(p.Tcell, tname) == nil {
+		c.Undecided(rule, tname, "-", "type not found")
+		return
+	}
+	owner := "tcell." + tname
+	isMu := func(in ssa.Instruction, method string) bool {
+		cc := callCommon(in)
+		if cc == nil || calleeName(cc) != "(*sync.Mutex)."+method || len(cc.Args) != 1 {
+			return false
+		}
+		ref, _, ok := fieldAddrRef(cc.Args[0])
+		return ok && ref.Owner == owner
+	}
+	n := 0
+	for _, fn := range p.modFns {
+		if fn.Pkg != p.Tcell {
+			continue
+		}
+		top := topFunc(fn)
+		if recvTypeName(top) != owner {
+			continue
+		}
+		var accs []ssa.Instruction
+		for _, st := range storesTo(fn, owner, "cb") {
+			accs = append(accs, st)
+		}
+		for _, ld := range loadsOf(fn, owner, "cb") {
+			accs = append(accs, ld)
+		}
+		for i, a := range accs {
+			n++
+			locked := false
+			eachInstr(fn, func(in ssa.Instruction) {
+				if !isMu(in, "Lock") || !instrDominates(in, a) {
+					return
+				}
+				// no Unlock between the Lock and the access
+				stop := map[ssa.Instruction]bool{}
+				eachInstr(fn, func(in2 ssa.Instruction) {
+					if isMu(in2, "Unlock") {
+						if _, isDefer := in2.(*ssa.Defer); !isDefer {
+							stop[in2] = true
+						}
+					}
+				})
+				between := false
+				for u := range stop {
+					if reachableAfter(in, u) && reachesWithout(u, a, func(x ssa.Instruction) bool { return isMu(x, "Lock") }) {
+						between = true
+					}
+				}
+				if !between {
+					locked = true
+				}
+			})
+			c.Check(locked, rule, fmt.Sprintf("%s.%s:cb-access#%d", tname, fn.Name(), i+1), p.pos(a.Pos()), "the callback field is accessed with the Tty's mutex held")
+		}
+	}
+	if n == 0 {
+		c.Undecided(rule, tname+":cb", "-", "no access to the callback field found")
+	}
+}
+
+// reachesWithout: some path leads from just after `from` to `target` without passing an instruction
+// for which barrier holds.
+func reachesWithout(from, target ssa.Instruction, barrier func(ssa.Instruction) bool) bool {
+	type pos struct {
+		b *ssa.BasicBlock
+		i int
+	}
+	start := -1
+	for i, in := range from.Block().Instrs {
+		if in == from {
+			start = i + 1
+		}
+	}
+	if start < 0 {
+		return false
+	}
+	seen := map[*ssa.BasicBlock]bool{}
+	var walk func(b *ssa.BasicBlock, i int) bool
+	walk = func(b *ssa.BasicBlock, i int) bool {
+		for ; i < len(b.Instrs); i++ {
+			in := b.Instrs[i]
+			if in == target {
+				return true
+			}
+			if barrier(in) {
+				return false
+			}
+		}
+		for _, s := range b.Succs {
+			if seen[s] {
+				continue
+			}
+			seen[s] = true
+			if walk(s, 0) {
+				return true
+			}
+		}
+		return false
+	}
+	return walk(from.Block(), start)
 }
